@@ -20,6 +20,7 @@ class Context:
     def __class_template(self) -> str:
         # TODO можно сделать кэш ячеек просчитанных
         return '''import datetime
+import decimal
 from dateutil import parser as date_parser
 from dateutil.relativedelta import relativedelta
 from math import trunc, ceil, floor
@@ -335,16 +336,22 @@ class ExcelInPython:
 
         return result
 
+    @staticmethod
+    def _round_decimal(number: float, num_digits: int, rounding: str):
+        # Excel rounds the decimal number the user sees (the shortest text of the double), not its binary value
+        exact = decimal.Decimal(repr(number)) if isinstance(number, float) else decimal.Decimal(int(number))
+        rounded = exact.quantize(decimal.Decimal(1).scaleb(-int(num_digits)), rounding=rounding,
+                                 context=decimal.Context(prec=400))
+        return float(rounded) if isinstance(number, float) else int(rounded)
+
     def _round(self, number: float, num_digits: int):
-        return round(number, int(num_digits))
+        return self._round_decimal(number, num_digits, decimal.ROUND_HALF_UP)
 
     def _roundup(self, number: float, num_digits: int):
-        factor = 10 ** num_digits
-        return ceil(number * factor) / factor
+        return self._round_decimal(number, num_digits, decimal.ROUND_UP)
 
     def _rounddown(self, number: float, num_digits: int):
-        factor = 10 ** num_digits
-        return floor(number * factor) / factor
+        return self._round_decimal(number, num_digits, decimal.ROUND_DOWN)
 
     def _date(self, year: int, month: int, day: int):
         if isinstance(year, str):
